@@ -24,6 +24,7 @@ import numpy
 from . import c19gen as G
 
 NEW_ARGS = ['u', 'v', 'w', 'u']              # arguments unknown to the namespace (shape deduced); few names, so they recur
+BY_NDIM = {0: ['z', 't'], 1: ['u', 'v', 'u'], 2: ['w', 'W']}
 BY_SHAPE = {(): 'z', (2,): 'u', (3,): 'v', (2, 2): 'w', (3, 3): 'W', (2, 3): 'y', (3, 2): 'Y'}     # consistent naming: one name per shape
 DECLARED = {'p': (2,), 'q': (3,)}            # arguments the namespace already knows (declared through ns.attr = '...')
 
@@ -92,7 +93,14 @@ class GenLen(G.Gen):
 
     def top(self, free, depth):
         self.consistent = self.rng.random() < .6        # one argument name per shape: repeated arguments agree (else: names at random, conflicts are likely)
+        # letters whose length must be fixed by a plain variable before a construct of deduced length may carry them (keeps most strings valid)
+        self.anchor = {l for l, _ in free if self.rng.random() < .85}
         return super().top(free, depth)
+
+    def argname(self, idx):
+        r = self.rng
+        if self.consistent: return BY_SHAPE[tuple(n for _, n in idx)]
+        return r.choice(NEW_ARGS) if r.random() < .15 else r.choice(BY_NDIM[len(idx)])
 
     def frac(self, free, depth, avoid):
         if depth > 0 and self.budget > 0 and self.rng.random() < .4:
@@ -117,9 +125,19 @@ class GenLen(G.Gen):
             if l is None: break
             n = r.choice([2, 2, 3])
             avoid.add(l); mine.add(l)
+            if r.random() < .75: self.anchor.add(l)
             a, b = r.choice(everything), r.choice(everything)
             if a is b and a is cslot: b = slots[0]       # a constant does not repeat an index
             a.append((l, n)); b.append((l, n))
+        link = None
+        if self.budget > 1 and r.random() < .2:
+            # a dirac that links two factors: `a_l δ_lm b_m`; both partners are anchored to plain variables most of the time
+            l = self.fresh(avoid); m = self.fresh(avoid | {l}) if l else None
+            if l and m:
+                n = r.choice([2, 2, 3]); avoid |= {l, m}; mine |= {l, m}
+                if r.random() < .8: self.anchor |= {l, m}
+                r.choice(slots).append((l, n)); r.choice(slots).append((m, n))
+                link = ('dirac', r.choice('δδ$'), l + m); self.budget -= 1
         factors = []
         if cslot is not None:
             text = r.choice(['2', '3', '1', '1', '10', '1.5', '.5', '2.'])
@@ -129,13 +147,15 @@ class GenLen(G.Gen):
             r.shuffle(sl)
             f, s = self.power(sl, depth, avoid)
             factors.append(f); summed |= s; avoid |= s
+        if link is not None:
+            factors.insert(r.randint(1 if factors[0][0] in ('num', 'cnum') else 0, len(factors)), link)
         return ('term', factors), summed
 
     def item(self, idx, depth, avoid):
         r = self.rng
         letters = [l for l, _ in idx]
         dups = {l for l in letters if letters.count(l) > 1}
-        if r.random() < self.p_infer:
+        if r.random() < self.p_infer and not any(l in self.anchor for l in letters):
             opts = []
             if len(idx) == 2 and idx[0][1] == idx[1][1]: opts += ['dirac'] * 3
             if len(idx) <= 2 and all(letters.count(l) <= 2 for l in letters): opts += ['arg'] * 2
@@ -148,13 +168,12 @@ class GenLen(G.Gen):
                 if kind == 'dirac':
                     return ('dirac', r.choice('δδ$'), ''.join(letters)), set(dups)
                 if kind == 'arg':
-                    name = BY_SHAPE[tuple(n for _, n in idx)] if self.consistent else r.choice(NEW_ARGS)
-                    return ('arg', name, ''.join(letters)), set(dups)
+                    return ('arg', self.argname(idx), ''.join(letters)), set(dups)
                 if kind == 'declared':
                     return ('arg', r.choice(sorted(DECLARED)), ''.join(letters)), set()
                 if kind == 'subst':
                     # `?u_ij(u_ji = <expression with free indices i, j>)`, or a group containing the argument; the right-hand side lives in a scope of its own
-                    name = BY_SHAPE[tuple(n for _, n in idx)] if self.consistent else r.choice(NEW_ARGS)
+                    name = self.argname(idx)
                     inner = ('arg', name, ''.join(letters))
                     summed = set()
                     if r.random() < .4:
@@ -181,7 +200,8 @@ class GenLen(G.Gen):
                 return ('stack', entries, si[0]), summed
         node, summed = super().item(idx, depth, avoid)
         if node[0] == 'call' and node[2]:       # generated axes have a deduced length of their own in v1: not part of this grammar
-            return super().item(idx, 0, avoid)
+            node, summed = super().item(idx, 0, avoid)
+        if node[0] == 'var': self.anchor -= set(letters)
         return node, summed
 
 
@@ -597,7 +617,7 @@ def stream(c, rng, ctx, quick, close, magnitude_ok):
     world = V1ConstWorld(v1, ctx)
     reader = LenReader(ctx, world.declared)
     gen = GenLen(rng, ctx)
-    n_ast = 260 if quick else 6000
+    n_ast = 400 if quick else 6000
     cases = [('corpus', ast, tgt) for ast, tgt in CORPUS_ASTS]
     for k in range(n_ast):
         depth = rng.choice([1, 1, 2, 2, 3, 3, 4])
